@@ -486,26 +486,27 @@ theorem tarType_kind_ne_invalid (t : UInt8) (k : Kind) (h : tarTypeToFsType t = 
 theorem tarHdrToMeta_meta (h : TarHdr) (m : Meta) (e : tarHdrToMeta h = .meta_ m) :
     mustRel h.name = some m.name ∧ m.kind ≠ .invalid := by
   unfold tarHdrToMeta at e
-  cases hn : mustRel h.name with
-  | none => simp [hn] at e
-  | some name =>
-    simp only [hn] at e
-    cases ht : tarTypeToFsType h.typeflag with
-    | skip => simp [ht] at e
-    | invalid => simp [ht] at e
-    | kind k =>
-      simp only [ht] at e
+  cases ht : tarTypeToFsType h.typeflag with
+  | skip => simp [ht] at e
+  | invalid =>
+    simp only [ht] at e
+    cases hn : mustRel h.name <;> simp [hn] at e
+  | kind k =>
+    simp only [ht] at e
+    cases hn : mustRel h.name with
+    | none => simp [hn] at e
+    | some name =>
+      simp only [hn] at e
       injection e with e
       subst e
       exact ⟨rfl, tarType_kind_ne_invalid _ _ ht⟩
 
 theorem tarHdrToMeta_no_panic (h : TarHdr) : tarHdrToMeta h ≠ .panic := by
   unfold tarHdrToMeta
-  cases mustRel h.name with
-  | none => simp
-  | some name =>
-    simp only
-    cases tarTypeToFsType h.typeflag <;> simp
+  cases tarTypeToFsType h.typeflag with
+  | skip => simp
+  | invalid => cases mustRel h.name <;> simp
+  | kind k => cases mustRel h.name <;> simp
 
 /-- canonical and not printed with a leading `..`  ⇔  canonical and the first component is not `..` -/
 theorem goodName_iff_comps {cs : List Bytes} (hc : CleanComps false cs) :
